@@ -156,6 +156,12 @@ def order_domain(ctx, repo):
     stores = [n for n in ast.walk(lf) if isinstance(n, ast.Assign) and isinstance(n.targets[0], ast.Subscript)]
     rets = [n for n in ast.walk(lf) if isinstance(n, ast.Return) and isinstance(n.value, ast.Name)]
     stores = [n for n in stores if rets and isinstance(n.targets[0].value, ast.Name) and n.targets[0].value.id == rets[0].value.id]
+    if not stores:
+        # comprehension form: `return {name(f): f for f in ... if <guard>}` (directly or via one local)
+        comps = [n for n in ast.walk(lf) if isinstance(n, ast.DictComp)]
+        allrets = [n for n in ast.walk(lf) if isinstance(n, ast.Return) and n.value is not None]
+        comps = [c for c in comps if any(r.value is c for r in allrets) or any(isinstance(a, ast.Assign) and a.value is c and rets and isinstance(a.targets[0], ast.Name) and a.targets[0].id == rets[0].value.id for a in ast.walk(lf))]
+        stores = [c.value for c in comps]
     if len(stores) != 1:
         raise AnalysisError("load_functions_for_date: the statement storing a selected function not found")
     store = stores[0]
